@@ -89,6 +89,62 @@ theorem ctor_same_rules (es : List Elem) (base : Option FormatRec) :
       | none => simp [format, hb, FormatRec.own]
       | some g => simp [format, hb, FormatRec.own]
 
+/-! ### Objects of user-defined subclasses of the public element classes -/
+
+/-- An object is skipped by the element-list constructor iff its class derives from none of the
+four public element classes. -/
+theorem dispatch_none_iff (mro : List PubClass) : dispatch mro = none ↔ mro = [] := by
+  constructor
+  · intro h
+    cases mro with
+    | nil => rfl
+    | cons c t =>
+      exfalso
+      have h' := List.find?_eq_none.1 h c (by cases c <;> simp [dispatchOrder])
+      simp at h'
+  · intro h; subst h; rfl
+
+/-- The class an object is added as is one its class derives from ... -/
+theorem dispatch_mem (mro : List PubClass) (c : PubClass) (h : dispatch mro = some c) : c ∈ mro := by
+  have := List.find?_some h
+  simpa using this
+
+/-- ... namely the FIRST one in the order of the tests. -/
+theorem dispatch_first (mro : List PubClass) (c d : PubClass) (h : dispatch mro = some c)
+    (hd : dispatchOrder.idxOf d < dispatchOrder.idxOf c) : d ∉ mro := by
+  have := find?_before (fun c => mro.contains c) dispatchOrder c d h hd
+  simpa using this
+
+/-- **An instance of ANY subclass of exactly one public element class - direct or indirect, with
+or without mixins - is added as that class.** -/
+theorem dispatch_subclass (mro : List PubClass) (c : PubClass) (hne : mro ≠ [])
+    (h : ∀ x ∈ mro, x = c) : dispatch mro = some c := by
+  cases hd : dispatch mro with
+  | none => exact absurd ((dispatch_none_iff mro).1 hd) hne
+  | some d => rw [h d (dispatch_mem mro d hd)]
+
+/-- **`ArgsFormat(objects, base)` for objects of arbitrary subclasses of the public element
+classes is the format of the builder obtained by adding, one by one, what the objects read as**,
+including which exception is raised: the concrete class of an element never matters. -/
+theorem ctor_objects_same_rules {Obj : Type} (mro : Obj → List PubClass) (kind : Obj → PubClass)
+    (read : Obj → PubClass → Elem) (os : List Obj) (base : Option FormatRec)
+    (hsub : ∀ o ∈ os, mro o ≠ [] ∧ ∀ x ∈ mro o, x = kind o) :
+    ctor (elemsOf mro read os) base =
+      match seqAdd (Builder.empty base) (os.map (fun o => read o (kind o))) with
+      | (b, none) => .ok (format b)
+      | (_, some e) => .error e := by
+  have : elemsOf mro read os = os.map (fun o => read o (kind o)) := by
+    unfold elemsOf
+    apply List.map_congr_left
+    intro o ho
+    rw [dispatch_subclass (mro o) (kind o) (hsub o ho).1 (hsub o ho).2]
+  rw [this, ctor_same_rules]
+
+/-- non-vacuity: a direct subclass, a subclass with a mixin (the mixin is no public class and does
+not occur), an object of a foreign class, and a class deriving from two public classes -/
+example : dispatch [.option] = some .option ∧ dispatch [.argument, .argument] = some .argument ∧
+    dispatch [] = none ∧ dispatch [.option, .commandOption] = some .commandOption := by decide
+
 /-- ... hence a format constructed directly from elements obeys the same rules. -/
 theorem ctor_inv (es : List Elem) (base : Option FormatRec) (hbase : InvBase base)
     (hwf : ∀ e ∈ es, ∀ op, e.toOp? = some op → op.wf) (f : FormatRec) (h : ctor es base = .ok f) : InvF f := by
